@@ -14,7 +14,9 @@ SPEC = dict(
                "every markers_/newlines_ rank1 (all i in 0..=len+2, usize::MAX) and select1 (all k in 0..=count+1, usize::MAX) answer, marker_count, "
                "row_count and is_empty is compared with an independent byte-at-a-time 2-state DFA. Exhaustive within the stated alphabets; the only state "
                "a chunked engine carries (one quote bit per 64-byte chunk) is driven through both values at every stated offset.",
-    level_note="Bounded: window length <= 11 classes, texts <= 275 bytes (up to 5 chunks), quote runs <= 130. Byte values outside the class "
+    level_note="The length-11 windows (3/4 of the thorough cost) run last under a wall budget of 660 s; if it is reached the remaining windows are skipped, "
+               "the sub-space is reported in caps_hit and `exhaustive` is false for it (lengths <= 10 and all other families are always complete). "
+               "Bounded: window length <= 11 classes, texts <= 275 bytes (up to 5 chunks), quote runs <= 130. Byte values outside the class "
                "representatives are covered singly (every value per role and as filler), not in combination. Only x86-64 paths present on the host run "
                "(evidence lists them); NEON/SVE2 are out of reach. Oracle: dsvref::scan (own DFA), self-tested against hand-written cases.",
     assumptions=["configurations have three distinct special bytes (as the statement requires)",
